@@ -3,6 +3,7 @@ package checks
 import (
 	"fmt"
 	"strings"
+	"unicode"
 
 	"github.com/hashicorp/go-bexpr/grammar"
 
@@ -14,7 +15,7 @@ import (
 func init() {
 	eng.Register(&eng.Check{
 		ID:          "C15",
-		Rule:        "E2 language explorer: (a) EVERY sequence of <=k tokens over a 32-token alphabet (identifiers a b x, 0 1 - ., \"s\" `s` \"/a\" and a lone quote, ( ) { } [ ] , _ == !=, and the 11 keywords) joined with every pattern of {no space, one space} per gap [quick: k<=3 all gap patterns + k=4 over a 20-token sub-alphabet with all-space/no-space joining; thorough: k=4 full alphabet with all 8 gap patterns + k=5 over the sub-alphabet]; (b) every expression of a bounded derivation set (all operators, connectives, quantifier binding modes, selector spellings) and its COMPLETE 1-edit token neighbourhood (insert any token / delete / replace by any token / swap neighbours / duplicate, at every position); each string is parsed by the real grammar.Parse and by the independent reference PEG (hand transcription of the grammar with pigeon's observable semantics); oracle: accept/reject equal and, on accept, equal trees (operator, selector type and path, literal text or nil, binding mode and names, shape). Distinct by construction (k-sequences and edits are enumerated without repetition inside each family); non-trivial = string accepted by the reference (a tree was compared).",
+		Rule:        "E2 language explorer: (a) EVERY sequence of <=k tokens over a 32-token alphabet (identifiers a b x, 0 1 - ., \"s\" `s` \"/a\" and a lone quote, ( ) { } [ ] , _ == !=, and the 11 keywords) joined with every pattern of {no space, one space} per gap [quick: k<=3 all gap patterns + k=4 over a 20-token sub-alphabet with all-space/no-space joining; thorough: k=4 full alphabet with all 8 gap patterns + k=5 over the sub-alphabet]; (a') a rune sweep: every rune below U+3000, the half/full-width and mathematical digit blocks, and every 11th letter/number/space rune beyond [thorough: ALL 1 112 064 scalar values] in five lexical contexts (identifier start, identifier continuation, JSON-pointer segment, dotted part, blank between tokens); (b) every expression of a bounded derivation set (all operators, connectives, quantifier binding modes, selector spellings) and its COMPLETE 1-edit token neighbourhood (insert any token / delete / replace by any token / swap neighbours / duplicate, at every position); each string is parsed by the real grammar.Parse and by the independent reference PEG (hand transcription of the grammar with pigeon's observable semantics); oracle: accept/reject equal and, on accept, equal trees (operator, selector type and path, literal text or nil, binding mode and names, shape). Distinct by construction (k-sequences and edits are enumerated without repetition inside each family); non-trivial = string accepted by the reference (a tree was compared).",
 		Assumptions: []string{"reference grammar = frozen transcription of grammar.peg (updated only together with a fix: commit that changes the grammar); C20 separately ties grammar.go to grammar.peg", "trusted: strconv.Unquote, unicode tables"},
 		Run:         runC15,
 	})
@@ -206,6 +207,36 @@ func runC15(c *eng.Ctx) {
 		next()
 		tokenSeqs(c, next(), c15Sub, 4, false)
 		next()
+	}
+	// (a') rune sweep: every rune of the sweep set in three lexical contexts (identifier start, identifier continuation,
+	// JSON-pointer segment) - the engine's class matching and the classes themselves, behaviourally
+	fr := next()
+	if c.Want("f", fr) {
+		idx := 0
+		sweep := func(r rune) {
+			for ctx, tm := range []string{"%c == 1", "a%c == 1", "\"/a%c\" == 1", "a.%c == 1", "a == 1%cand b == 1"} {
+				idx++
+				if !c.Mine(idx) || !c.Want("i", idx) {
+					continue
+				}
+				compareParse(c, fmt.Sprintf(tm, r), map[string]int{"f": fr, "i": idx, "x": ctx})
+			}
+		}
+		for r := rune(0); r <= 0x10FFFF; r++ {
+			if r >= 0xD800 && r <= 0xDFFF {
+				continue
+			}
+			if !c.Thorough() {
+				interesting := r < 0x3000 || r == 0xFEFF || r == 0x10FFFF || (r >= 0xFF00 && r <= 0xFFEF) || (r >= 0x1D7C0 && r <= 0x1D7FF)
+				if !interesting && !((unicode.IsLetter(r) || unicode.IsNumber(r) || unicode.IsSpace(r)) && r%11 == 0) {
+					continue
+				}
+			}
+			if r%4096 == 0 && c.Expired() {
+				return
+			}
+			sweep(r)
+		}
 	}
 	// (b) derivations + complete 1-edit neighbourhood
 	f := next()
